@@ -59,6 +59,12 @@ func (d *VD) String() string {
 		return "slice(" + strings.Join(a, ", ") + ")"
 	case "typeassert":
 		return d.Args[0].String() + ".(" + d.Name + ")"
+	case "varargs":
+		var a []string
+		for _, x := range d.Args {
+			a = append(a, x.String())
+		}
+		return "[" + strings.Join(a, ", ") + "]"
 	default:
 		if d.Name != "" {
 			return d.Kind + ":" + d.Name
@@ -215,6 +221,23 @@ func (ds *Describer) d1(v ssa.Value, depth int) *VD {
 		}
 		return r
 	case *ssa.Slice:
+		if a, ok := x.X.(*ssa.Alloc); ok && a.Comment == "varargs" {
+			r := &VD{Kind: "varargs"}
+			if a.Referrers() != nil {
+				for _, ref := range *a.Referrers() {
+					ia, ok := ref.(*ssa.IndexAddr)
+					if !ok || ia.Referrers() == nil {
+						continue
+					}
+					for _, r2 := range *ia.Referrers() {
+						if st, ok := r2.(*ssa.Store); ok && st.Addr == ssa.Value(ia) {
+							r.Args = append(r.Args, ds.d(st.Val, depth+1))
+						}
+					}
+				}
+			}
+			return r
+		}
 		r := &VD{Kind: "slice", Args: []*VD{ds.d(x.X, depth+1)}}
 		for _, b := range []ssa.Value{x.Low, x.High} {
 			if b != nil {
@@ -330,6 +353,17 @@ func singleStore(a *ssa.Alloc) ssa.Value {
 					}
 				}
 			case *ssa.DebugRef:
+			case *ssa.Slice:
+				// x[:] of an array variable: reading access
+			case *ssa.IndexAddr, *ssa.FieldAddr:
+				// derived element address: fine as long as nothing is stored through it
+				if dr := x.(ssa.Value).Referrers(); dr != nil {
+					for _, r2 := range *dr {
+						if st, ok := r2.(*ssa.Store); ok && st.Addr == x.(ssa.Value) {
+							return false
+						}
+					}
+				}
 			default:
 				return false
 			}
@@ -429,4 +463,16 @@ func (d *VD) MentionsParam(name string) bool {
 // MentionsValue: the slice passes through the given SSA value.
 func (d *VD) MentionsValue(v ssa.Value) bool {
 	return d.Any(func(x *VD) bool { return x.Val == v })
+}
+
+// CalleeNameOfFirst returns the callee name of the first call in fn whose method name is name ("" if none).
+func CalleeNameOfFirst(fn *ssa.Function, name string) string {
+	for _, b := range fn.Blocks {
+		for _, in := range b.Instrs {
+			if ci, ok := in.(ssa.CallInstruction); ok && MethodName(ci.Common()) == name {
+				return CalleeName(ci.Common())
+			}
+		}
+	}
+	return ""
 }
